@@ -3,7 +3,7 @@ C08 driver handlers: line protocol shared with harness/c08.c (one op per line, o
 `err` = the C function returned SIZE_MAX / FALSE-as-error; `OOB` = the model read outside its
 input (the harness can never print this, so it always shows up as a disagreement).
 -/
-import Bee2V.C08.Model3
+import Bee2V.C08.Model4
 import Bee2V.Base.Proto
 namespace Bee2V.C08.Drv
 open Bee2V.C08 Bee2V.Proto
@@ -267,6 +267,22 @@ def handle : List String → String
         | .oob => "OOB"
       else "invalid"
     | _, _, _, _, _, _, _ => "bad-op"
+  | ["cvcimg", x] => match parseHex x with
+    | some x =>
+      let r := cvcBodyDecS x
+      let i := cvcImage r.2
+      let hd := match r.1 with
+        | .ok c => s!"{c}"
+        | .err => "err"
+        | .oob => "OOB"
+      s!"{hd} {toHex i.authority} {toHex i.holder} {toHex i.pubkey} {i.pubkey_len} {toHex i.from_} {toHex i.until_} {toHex i.hat_eid} {toHex i.hat_esign} {toHex i.sig} {i.sig_len}"
+    | none => "bad-op"
+  | ["cvcuimg", x] => match parseHex x with
+    | some x =>
+      let r := cvcUnwrapS x
+      let i := cvcImage r.2
+      s!"{if r.1 then "parsed" else "badfmt"} {toHex i.authority} {toHex i.holder} {toHex i.pubkey} {i.pubkey_len} {toHex i.from_} {toHex i.until_} {toHex i.hat_eid} {toHex i.hat_esign} {toHex i.sig} {i.sig_len}"
+    | none => "bad-op"
   | _ => "bad-op"
 
 end Bee2V.C08.Drv
